@@ -35,6 +35,8 @@ def look_scenarios(rng, n):
 def run(chk):
     drv = Driver()
     rng = chk.rng
+    from harness.checks.C14 import derive_suite
+    derive_suite(chk, drv, 400 if chk.tier == 'quick' else 4000, 'C15')      # incl. the default bound 2 * n_jobs * ceil(chunk size)
     scs = look_scenarios(rng, 400 if chk.tier == 'quick' else 6000)
     obs = run_scenarios(chk, 'imap_unordered with counting input and pausing consumer under DetSim', scs, {'C15', 'C03'},
                         nontrivial=lambda sc, o: sc['ops'][0]['n'] >= 4,
